@@ -106,16 +106,21 @@ class _RabbitConsumer(ConsumerT):
 
     async def pause(self) -> None:
         self.__is_paused = True
-        await self.broker._channel.basic_qos(
-            prefetch_size=0,
-            prefetch_count=1,
+        # aiormq closes the whole channel when a pending RPC is cancelled, so let it finish
+        await asyncio.shield(
+            self.broker._channel.basic_qos(
+                prefetch_size=0,
+                prefetch_count=1,
+            ),
         )
 
     async def unpause(self) -> None:
         self.__is_paused = False
-        await self.broker._channel.basic_qos(
-            prefetch_size=0,
-            prefetch_count=self.max_unacked_messages,
+        await asyncio.shield(
+            self.broker._channel.basic_qos(
+                prefetch_size=0,
+                prefetch_count=self.max_unacked_messages,
+            ),
         )
 
     async def finish(self) -> None:
